@@ -255,6 +255,7 @@ def cold_dispatch_rounds(ctx, rng, functions, inventory, registry, apps, layout,
                     return await asyncio.gather(*(one(app, rid) for app, rid in calls))
 
                 results = loop.run_until_complete(batch())
+                ctx.shape(('cold-dispatch', len(appnames), tuple(app for app, _ in calls)))
             finally:
                 loop.close()
                 wrapper.shutdown()
